@@ -213,13 +213,19 @@ def invoke(program, cls_name, result_name, args):
         return Outcome(exc=e)
 
 
+STANDIN_NAMES = ["In0", "in0", "IN0", "In3", "in3"]
+_calls = {"n": 0}
+
+
 def run_cmd(cls_name, inputs, params, fuzzy_inputs=False, libs=CSV_LIBS, program=None, list_param=None, refs=None):
     """inputs: list of arrays (already built). Single-input commands take InFieldName, A/B commands
     take A and B, list commands take InFieldNames. Returns (Outcome, program, producers)."""
     program = program or new_program(libs)
     names = []
+    _calls["n"] += 1
     for i, a in enumerate(inputs):
-        nm = "In%d" % i
+        # producer names that differ only in letter case are distinct results
+        nm = STANDIN_NAMES[i] if i < len(STANDIN_NAMES) else "In%d" % i
         standin(program, nm, a, fuzzy=fuzzy_inputs)
         names.append(nm)
     if refs is not None:
@@ -232,6 +238,8 @@ def run_cmd(cls_name, inputs, params, fuzzy_inputs=False, libs=CSV_LIBS, program
         args["A"], args["B"] = names[0], names[1]
     else:
         args[list_param or "InFieldNames"] = list(names)
+    if _calls["n"] % 2:
+        args = dict(reversed(list(args.items())))      # the order in which arguments are written does not matter
     out = invoke(program, cls_name, "Res", args)
     return out, program
 
